@@ -114,6 +114,8 @@ unsafe impl GlobalAlloc for Hv {
                 FAIL => {
                     if k == FAIL_AT.load(Relaxed) {
                         FAILED_SIZE.store(layout.size() as u64, Relaxed);
+                        crate::sys::shared().scratch[15] = layout.size() as u64;
+                        crate::sys::shared().scratch[14] = 1;
                         return std::ptr::null_mut();
                     }
                 }
@@ -136,6 +138,8 @@ unsafe impl GlobalAlloc for Hv {
                 FAIL => {
                     if k == FAIL_AT.load(Relaxed) {
                         FAILED_SIZE.store(layout.size() as u64 | (1 << 63), Relaxed);
+                        crate::sys::shared().scratch[15] = layout.size() as u64;
+                        crate::sys::shared().scratch[14] = 2;
                         return std::ptr::null_mut();
                     }
                 }
